@@ -171,6 +171,38 @@ Theorem C05_gen_build_uses_regenerated_loops : forall r d, build r = Ok d -> r_t
 Proof. exact build_uses_gen_lemma. Qed.
 Print Assumptions C05_gen_build_uses_regenerated_loops.
 
+(* ---- C05 for the generic layer (iCalendar-style zones): the REGENERATED datetime_exists / datetime_ambiguous /
+   resolve_imaginary on the zone object of a piecewise zone with constant standard offset (pw_obj: utcoffset/dst =
+   PEP-495 wall lookups, fromutc = generic _tzinfo.fromutc, is_ambiguous = generic _tzinfo.is_ambiguous).
+   Not covered by any theorem: tzlocal (own is_ambiguous), tzrange / tzstr (own fromutc/is_ambiguous; C08). ---- *)
+From V Require Import tzfile.TzZoneThm tzfile.TzGenericInstThm tzfile.TzGenericGenThm.
+Theorem C05_generic_ambiguous_iff_two_preimages : forall (so p : Z) (tr : list (Z * Z)),
+  wf_zone (mkZone p tr) = true -> forall w,
+  g_is_ambiguous (A_utcoffset p tr) w = true <-> length (preimages (mkZone p tr) w) = 2%nat.
+Proof. exact ambiguous_obligation. Qed.
+Print Assumptions C05_generic_ambiguous_iff_two_preimages.
+
+Theorem C05_generic_datetime_exists : forall (so p : Z) (tr : list (Z * Z)),
+  wf_zone (mkZone p tr) = true -> alt_from so p tr = true -> so <= p -> forall w f,
+  gen_datetime_exists (pw_obj so p tr) (w, f) =
+  Ok (match preimages (mkZone p tr) w with [] => false | _ :: _ => true end).
+Proof. exact pw_datetime_exists_lemma. Qed.
+Print Assumptions C05_generic_datetime_exists.
+
+Theorem C05_generic_datetime_ambiguous : forall (so p : Z) (tr : list (Z * Z)),
+  wf_zone (mkZone p tr) = true -> forall w f,
+  gen_datetime_ambiguous (pw_obj so p tr) (w, f) = Ok (length (preimages (mkZone p tr) w) =? 2)%nat.
+Proof. exact pw_datetime_ambiguous_lemma. Qed.
+Print Assumptions C05_generic_datetime_ambiguous.
+
+Theorem C05_generic_resolve_imaginary : forall (so p : Z) (tr : list (Z * Z)),
+  wf_zone (mkZone p tr) = true -> alt_from so p tr = true -> so <= p -> forall w f,
+  (preimages (mkZone p tr) w <> [] -> gen_resolve_imaginary (pw_obj so p tr) (w, f) = Ok (w, f)) /\
+  (preimages (mkZone p tr) w = [] -> exists g, 0 < g /\ gap_width (mkZone p tr) w = Some g /\
+     gen_resolve_imaginary (pw_obj so p tr) (w, f) = Ok (w + g, false) /\ preimages (mkZone p tr) (w + g) <> []).
+Proof. exact pw_resolve_imaginary_lemma. Qed.
+Print Assumptions C05_generic_resolve_imaginary.
+
 (* hand-modelled fragments (struct decoding and the derivation loops of _read_tzfile, one-line methods, glue)
    are unchanged since the hand model was validated against them *)
 From V Require Import tzfile.TzPinC05.
